@@ -122,6 +122,13 @@ impl Actor for Sc {
                 *s.to_mut() = (c.wrapping_add(1), 70);
                 o.set_timer(9, dur());
             }
+            8 => {
+                // re-arms the SAME key ("e") it was just handed: the selected choice is consumed first, then the
+                // command sets the key again, so the key must still be pending afterwards
+                let c = s.0;
+                *s.to_mut() = (c.wrapping_add(1), 81);
+                o.choose_random("e", vec![9]);
+            }
             _ => {
                 let c = s.0;
                 *s.to_mut() = (c.wrapping_add(1), 80);
@@ -383,7 +390,16 @@ where
     all
 }
 
-fn explore<A>(ctx: &mut Ctx, label: &str, m: &AM<A>, depth: usize)
+/// shapes that must be enumerated at least once (checked at the end of `run`)
+#[derive(Default)]
+pub struct Cov {
+    /// a SelectRandom whose handler re-armed the key it was handed
+    pub rearm_same_key: u64,
+    /// a step with at least two sends that were both recorded by the out-hook
+    pub two_recorded_sends: u64,
+}
+
+fn explore<A>(ctx: &mut Ctx, cov: &mut Cov, label: &str, m: &AM<A>, depth: usize)
 where
     A: Actor<Msg = u8, Timer = u8, Random = u8>,
     A::State: PartialEq + Debug + Clone,
@@ -431,7 +447,38 @@ where
             let (want, recv, sent) = ref_next(m, &s, &a);
             let ob = format!("AM.next_state.ensures.{}", arm(&a));
             ctx.check(&case, &format!("am-next-state-{}", arm(&a)), &[&ob, "AM.process_commands.ensures.fold"], same(&real, &want), show(&real), show(&want));
+            if let (Some(t), ActorModelAction::SelectRandom { actor, key, random }) = (&real, &a) {
+                // a handler that re-arms the key it was just handed: consumed first, THEN set again by its command
+                let i = usize::from(*actor);
+                let mut cow = Cow::Borrowed(&*s.actor_states[i]);
+                let mut out = Out::new();
+                m.actors[i].on_random(*actor, &mut cow, random, &mut out);
+                let mut last: Option<Vec<u8>> = None;
+                for c in out.iter() {
+                    if let Command::ChooseRandom(k, v) = c {
+                        if k == key {
+                            last = Some(v.clone());
+                        }
+                    }
+                }
+                if let Some(v) = last {
+                    if !v.is_empty() {
+                        cov.rearm_same_key += 1;
+                        ctx.check(&format!("{}:rearm", case), "am-rearm-same-key", &[&ob, "AM.process_commands.ensures.fold"], t.random_choices[i].map.get(key) == Some(&v),
+                            format!("{:?}", t.random_choices[i]), format!("key {:?} pending with {:?}", key, v));
+                    }
+                }
+            }
             if let Some(t) = &real {
+                let recorded: Vec<&(u64, u64, u8)> = sent.iter().filter(|(_, _, msg)| !(m.cfg == 1 && msg % 2 == 1)).collect();
+                if recorded.len() >= 2 {
+                    // two recorded sends in one step: the history ends with them, in emission order
+                    cov.two_recorded_sends += 1;
+                    let n = t.history.len();
+                    let want: Vec<(u8, u64, u64, u8)> = recorded.iter().map(|(a, b, c)| (1u8, *a, *b, *c)).collect();
+                    let ok = n >= want.len() && t.history[n - want.len()..] == want[..];
+                    ctx.check(&format!("{}:two-sends", case), "am-two-sends-order", &[&ob, "AM.process_commands.ensures.fold"], ok, format!("{:?}", t.history), format!("history ends with {:?}", want));
+                }
                 // the hooks saw the received message first, then each sent message in emission order, nothing else
                 let mut h = s.history.clone();
                 if let Some((src, dst, msg)) = recv {
@@ -451,6 +498,7 @@ where
 }
 
 pub fn run(ctx: &mut Ctx) {
+    let mut cov = Cov::default();
     for kind in NETS {
         for lossy in [false, true] {
             for max_crashes in 0..=2usize {
@@ -460,14 +508,18 @@ pub fn run(ctx: &mut Ctx) {
                     }
                     let label = format!("sc:{}:lossy={}:k={}:cfg={}", kind, lossy, max_crashes, cfg);
                     let m = model(vec![Sc, Sc, Sc], kind, &[], lossy, max_crashes, cfg);
-                    explore(ctx, &label, &m, 3);
+                    explore(ctx, &mut cov, &label, &m, 3);
                 }
                 // the shared probe actor (every handler writes all its arguments into state and commands); one
                 // quiet actor: its deliveries change nothing
                 let label = format!("probe:{}:lossy={}:k={}", kind, lossy, max_crashes);
                 let m = model(vec![P::<u8>::new(false), P::<u8>::new(true)], kind, &[(0, 1, 21), (1, 0, 22), (1, 0, 23), (0, 5, 24)], lossy, max_crashes, 0);
-                explore(ctx, &label, &m, 3);
+                explore(ctx, &mut cov, &label, &m, 3);
             }
         }
+    }
+    if ctx.only.is_none() {
+        ctx.check("coverage", "am-oracle-coverage", &["AM.next_state.ensures.select-random", "AM.process_commands.ensures.fold"], cov.rearm_same_key > 0 && cov.two_recorded_sends > 0,
+            format!("rearm_same_key={} two_recorded_sends={}", cov.rearm_same_key, cov.two_recorded_sends), "both shapes enumerated at least once".into());
     }
 }
